@@ -65,11 +65,10 @@ def main():
     sys.addaudithook(hook)
     mi_x = tuple(g['mi_x']) if g.get('tuple_mi') else list(g['mi_x'])
     mi_y = tuple(g['mi_y']) if g.get('tuple_mi') else list(g['mi_y'])
-    if g.get('log'):
-        i1 = MultiprocessingInput('test_x', 'TestX', -1, 1, 'log', mi_x, g['nx'])
-    else:
-        i1 = MultiprocessingInput('test_x', 'TestX', 0, 2, 'linear', mi_x, g['nx'])
-    i2 = MultiprocessingInput('test_y', 'TestY', -3, 3, 'linear', mi_y, g['ny'])
+    xlim = g.get('xlim') or ([-1, 1] if g.get('log') else [0, 2])      # limits that need all 17 significant digits when 'xlim'/'ylim' are given
+    ylim = g.get('ylim') or [-3, 3]
+    i1 = MultiprocessingInput('test_x', 'TestX', xlim[0], xlim[1], 'log' if g.get('log') else 'linear', mi_x, g['nx'])
+    i2 = MultiprocessingInput('test_y', 'TestY', ylim[0], ylim[1], 'linear', mi_y, g['ny'])
     t = time.time()
     res = multiprocessing_run(study, 'test', func, (i1, i2), max_procs=spec['procs'], allow_low_procs=True, avoid_crashes=True,
                               force_restart=False, verbose=False, perform_memory_check=False)
